@@ -14,6 +14,8 @@ import (
 
 	saddfield "verif/harness/shapes/addfield"
 	sbase "verif/harness/shapes/base"
+	sdeep "verif/harness/shapes/deep"
+	sdeepchg "verif/harness/shapes/deepchg"
 	sdelfield "verif/harness/shapes/delfield"
 	snestedchg "verif/harness/shapes/nestedchg"
 	srenamed "verif/harness/shapes/renamed"
@@ -58,6 +60,8 @@ var shapeVariants = []*shapeV{
 	{Name: "twoval", New: stwoval.New, Zero: stwoval.Zero, ProbeA: stwoval.ProbeA},
 	{Name: "taglower", New: staglower.New, Zero: staglower.Zero, ProbeA: staglower.ProbeA},
 	{Name: "tagupper", New: stagupper.New, Zero: stagupper.Zero, ProbeA: stagupper.ProbeA},
+	{Name: "deep", New: sdeep.New, Zero: sdeep.Zero, ProbeA: sdeep.ProbeA},
+	{Name: "deepchg", New: sdeepchg.New, Zero: sdeepchg.Zero, ProbeA: sdeepchg.ProbeA},
 }
 
 // describe walks the struct independently of sod: path -> type, path -> constraints.
@@ -615,7 +619,7 @@ func runC17(c *Ctx) {
 		}
 	}
 	c.Meta(map[string]interface{}{
-		"rule":   "(1) all ordered pairs (stored shape, current shape) over 16 struct variants that share package and type name (field added / removed / retyped / renamed / reordered, pointer vs value nesting, nested field retyped, a second and third field of an already used struct type, tag added / removed / changed, lower / upper added) x {0, 2} stored objects x 21 operations naming the collection, as first and as later operation on the handle; pair class computed by an independent reflection walk: structure different => ErrStructureChanged and byte-identical files (also after Control and Close); same structure but different constraints => Create refused with ErrFieldDescModif; other extension => ErrExtensionMismatch; compatible => operations succeed, data preserved, Control quiet. (1b) every incompatible (shape, extension, cache) re-creation on an asynchronous handle holding one flushed object, a pending update and a pending insert: refused with the right error, no file touched (pending writes stay pending), both objects served, written by Close and read back by a new handle. (2) Create with each of {cache on/off} x {async off, (2, 2 steps), (100, 2 steps)} as alphabet letters in BFS histories with pending writes (refinement continues, deleted objects never on disk, nothing lost at Close, second handle agrees) and as calls of a client against the running background writer over all schedules within 2 deviations (no panic, no blocking, nothing lost). Non-trivial = pairs of different shapes; histories with a settings change on non-empty collections.",
+		"rule":   "(1) all ordered pairs (stored shape, current shape) over 18 struct variants that share package and type name (field added / removed / retyped / renamed / reordered, pointer vs value nesting, nested field retyped, a second and third field of an already used struct type, tag added / removed / changed, lower / upper added, a field five path components deep added / retyped) x {0, 2} stored objects x 21 operations naming the collection, as first and as later operation on the handle; pair class computed by an independent reflection walk: structure different => ErrStructureChanged and byte-identical files (also after Control and Close); same structure but different constraints => Create refused with ErrFieldDescModif; other extension => ErrExtensionMismatch; compatible => operations succeed, data preserved, Control quiet. (1b) every incompatible (shape, extension, cache) re-creation on an asynchronous handle holding one flushed object, a pending update and a pending insert: refused with the right error, no file touched (pending writes stay pending), both objects served, written by Close and read back by a new handle. (2) Create with each of {cache on/off} x {async off, (2, 2 steps), (100, 2 steps)} as alphabet letters in BFS histories with pending writes (refinement continues, deleted objects never on disk, nothing lost at Close, second handle agrees) and as calls of a client against the running background writer over all schedules within 2 deviations (no panic, no blocking, nothing lost). Non-trivial = pairs of different shapes; histories with a settings change on non-empty collections.",
 		"shapes": len(shapeVariants), "operations": len(ops), "settings_depth": depth,
 	})
 }
